@@ -157,6 +157,16 @@ class TypeArg:
         return self.cls + ("".join("+" + f for f in sorted(self.flags)))
 
 
+def _flat(b):
+    """Class tuples given to isinstance/issubclass may nest."""
+    if isinstance(b, tuple) and not (b and isinstance(b[0], str)):
+        out = ()
+        for x in b:
+            out += _flat(x)
+        return out
+    return (b,)
+
+
 class PredEval:
     """Three-valued evaluation (True/False/None=unknown) of a predicate's body on a TypeArg."""
 
@@ -379,7 +389,7 @@ class PredEval:
             if a.subscripted:
                 # issubclass(list[int], X) raises TypeError; the safe form returns False
                 return False if fn.endswith("_safe_issubclass") else ("raises",)
-            targets = b if isinstance(b, tuple) else (b,)
+            targets = _flat(b)
             res = False
             for x in targets:
                 if not isinstance(x, TypeArg):
@@ -413,7 +423,7 @@ class PredEval:
             return None
         if fn == "builtins.isinstance" and len(args) == 2 and isinstance(args[0], TypeArg):
             a, b = args
-            targets = b if isinstance(b, tuple) else (b,)
+            targets = _flat(b)
             if a.flags or not all(isinstance(x, TypeArg) for x in targets):
                 return None
             try:
